@@ -1297,3 +1297,102 @@ func TestC18Schedules(t *testing.T) {
 		},
 		func(c *overlapCase) bool { return true })
 }
+
+// ---- constructors that can only be aborted through their scope's context ----
+
+// runCtxWaiters: a scoped or transient constructor takes the scope's context and does not
+// return until that context is done (a dial with no other way out). Closing the scope - or an
+// ancestor, or the provider - cancels that context: the Close returns, and so does the
+// resolution. A Close that first waits for constructions in flight would wait for ever.
+func runCtxWaiters(t *testing.T, prop string) {
+	col := evid.New(prop, "constructors-waiting-for-their-context", "generated configurations in which one scoped or transient constructor takes context.Context and returns only once that context is done; a scope tree of depth 1-3; thread A resolves that service in the deepest scope and is left waiting inside the constructor; thread B closes that scope, an ancestor or the provider; oracle: B's Close returns within 10 s (no deadlock between the Close and the construction it overlaps), A's resolution returns within 10 s after that (a value, the disposed error or the constructor's own context error), nobody panics; non-trivial = the constructor was actually waiting when the Close was issued")
+	defer col.Flush()
+	rapid.Check(t, func(rt *rapid.T) {
+		cfg := kit.GenConfig(rt, kit.FullOpts())
+		cfg.PreBuild = 0
+		var cands []int
+		for i := range cfg.Regs {
+			r := &cfg.Regs[i]
+			if r.Life != kit.Singleton && (r.Form == kit.FormPlain || r.Form == kit.FormMulti || r.Form == kit.FormOut) && r.Kind == kit.KindMakeFunc && !r.Variadic && !r.HasCtorOf && len(r.Provides()) > 0 {
+				cands = append(cands, i)
+			}
+		}
+		if len(cands) == 0 {
+			col.Case(false, cfg.String(), nil, "no-candidate")
+			return
+		}
+		wr := &cfg.Regs[rapid.SampledFrom(cands).Draw(rt, "waiter")]
+		wr.Deps = append(wr.Deps, kit.DepSpec{Builtin: 1})
+		waiting := make(chan int, 8)
+		x, err := startRunWith(cfg, nil, func(w *kit.World) {
+			w.CtxWaitRegs = map[int]bool{wr.ID: true}
+			w.CtxWaiting = waiting
+		})
+		if err != nil {
+			rt.Fatal(err)
+		}
+		if x.Build.Err != nil || x.Build.Panic != nil {
+			col.Case(false, cfg.String(), nil, "build-failed(not judged here)")
+			return
+		}
+		depth := rapid.IntRange(1, 3).Draw(rt, "depth")
+		parent := 0
+		for d := 0; d < depth; d++ {
+			x.exec(Op{Kind: "create", Scope: parent, Ctx: rapid.SampledFrom([]int{0, 1, 2}).Draw(rt, "ctx")})
+			tags := x.R.Tags()
+			parent = tags[len(tags)-1]
+		}
+		leaf := parent
+		if rec := x.R.ScopeRecOf(leaf); rec == nil || !rec.Created {
+			col.Case(false, cfg.String(), nil, "scope-creation-failed")
+			return
+		}
+		id := wr.Provides()[rapid.IntRange(0, len(wr.Provides())-1).Draw(rt, "which")].Ident
+		x.W.CtxWaitOn.Store(true)
+		aDone := make(chan struct{})
+		go func() { defer close(aDone); x.exec(Op{Kind: "get", Scope: leaf, Ident: id}) }()
+		isWaiting := false
+		select {
+		case <-waiting:
+			isWaiting = true
+		case <-aDone:
+		case <-time.After(3 * time.Second):
+		}
+		anc := x.R.Ancestors(leaf)
+		target := rapid.IntRange(0, len(anc)).Draw(rt, "closeWhich") // len(anc) = the provider
+		closeOp := Op{Kind: "pclose"}
+		if target < len(anc) {
+			closeOp = Op{Kind: "close", Scope: anc[target]}
+		}
+		bDone := make(chan struct{})
+		go func() { defer close(bDone); x.exec(closeOp) }()
+		canon := fmt.Sprintf("%s\nscopes: depth %d; A: get(s%d,%s) inside the waiting constructor of r%d (waiting=%v); B: %s", cfg, depth, leaf, id, wr.ID, isWaiting, closeOp)
+		col.Case(isWaiting, canon, canon, fmt.Sprintf("waiting=%v", isWaiting), "B:"+closeOp.Kind)
+		var f *Failure
+		if !kit.WaitOrTimeout(bDone, 10*time.Second) {
+			f = fail(prop, "no-hang", "close-vs-waiting-constructor", "%s has not returned after 10 s while a constructor of the scope being closed waits for that scope's context to be done", closeOp)
+		} else if !kit.WaitOrTimeout(aDone, 10*time.Second) {
+			f = fail(prop, "no-hang", "resolution-after-close", "the resolution whose constructor waits for its scope's context has not returned 10 s after %s returned", closeOp)
+		}
+		if f == nil {
+			for _, o := range x.R.Obs {
+				if o.Panic != nil {
+					f = fail(prop, "no-panic", o.Kind, "%s(s%d,%s) panicked: %v", o.Kind, o.Scope, o.Ident, o.Panic)
+				}
+			}
+		}
+		if f != nil {
+			if isKnown(f) {
+				col.Excluded()
+				return
+			}
+			rt.Fatalf("VIOLATION %s\n%s", f, canon)
+		}
+		if !x.R.PClosed {
+			x.exec(Op{Kind: "pclose"})
+		}
+	})
+}
+
+func TestC13CtxWaiters(t *testing.T) { runCtxWaiters(t, "C13") }
+func TestC09CtxWaiters(t *testing.T) { runCtxWaiters(t, "C09") }
